@@ -39,6 +39,9 @@ structure KState where
   spoiledAt : Nat := 0
   /-- the server's lists carry an empty resource version (a watch from "" starts at the current version) -/
   emptyRV : Bool := false
+  /-- slow or gated lists answer with the snapshot taken when they were asked: after such a list the cache is only
+      per key a past state of the server (the Lean invariant `CCut`) until the re-armed watch has caught up -/
+  stale : Bool := false
 
 def stateAt (h : List (Int × EvT × Obj)) (n : Nat) : Items Key Obj :=
   (h.take n).foldl (fun m e => serverApply m e.2.1 e.2.2) []
@@ -74,6 +77,7 @@ def ctrlLine (st : KState) (e : SExp) : KState × String :=
                            faultKind := fk, retryDelay := (rd.toNat?).getD 1000, fuzzPermille := (fz.toNat?).getD 100 }, "ok")
     | none => (st, "bad cstart")
   | .list [.atom "emptyrv"] => ({ st with emptyRV := true }, "ok")
+  | .list [.atom "stalelist"] => ({ st with stale := true }, "ok")
   | .list (.atom "advance" :: _) => (st, "ok")
   | .list [.atom "inject", .atom "replay-delete", o] =>
     match decObj o with
@@ -113,8 +117,9 @@ def ctrlLine (st : KState) (e : SExp) : KState × String :=
       let fail (m : String) : KState × String := ({ st1 with dead := true }, m)
       -- ---- C14: list failures are fail-stop and reported; nothing else is fatal
       if failed && !st.closing then
-        let wantErr := if st.faultKind == "error" then "list-error" else if st.faultKind == "canceled" then "canceled" else "list-invalid"
-        if !d then fail s!"reject C14 list {st.faultAt} failed ({st.faultKind}) but the controller is not done"
+        let wantErr := if st.faultKind == "error" || st.faultKind == "errorlist" then "list-error" else if st.faultKind == "canceled" then "canceled" else "list-invalid"
+        if st.faultAt == 1 && r then fail s!"reject C08/C14 Ready() is closed although the first list failed ({st.faultKind})"
+        else if !d then fail s!"reject C14 list {st.faultAt} failed ({st.faultKind}) but the controller is not done"
         else if err != wantErr then fail s!"reject C14 list {st.faultAt} failed ({st.faultKind}): Error() is {err}, expected {wantErr}"
         else if r != decide (st.faultAt > 1) then fail s!"reject C14/C08 list {st.faultAt} failed: Ready() is {r}"
         else if sd == .atom "false" then fail "reject C14/C11 the controller stopped on a list failure but its subscriber is not done"
@@ -152,15 +157,28 @@ def ctrlLine (st : KState) (e : SExp) : KState × String :=
         -- C03/C04: the cache is the accepted server state at some point of the history, never going backwards;
         -- with a live watch (or right after a complete list of the current state) it is the current state
         let listedNow := newLists.any (fun l => l.2.2.2 == toString (rvAt st.history n)) || (n == 0 && !newLists.isEmpty)
-        let candidates := (List.range (n + 1)).filter (fun j => j ≥ st.applied &&
+        let candidates0 := (List.range (n + 1)).filter (fun j => j ≥ st.applied &&
           sameObjSet (unspoil cache) (unspoil (viewOf st.filter (stateAt st.history j))) &&
           -- a spoiled key is either gone or as the server has it
           cache.all (fun o => !spoiled.contains o.key || (viewOf st.filter (stateAt st.history j)).contains o))
+        -- after a stale list: per key, the cache holds what the server held for that key at some point
+        let perKey := st.stale &&
+          ((cache.map (·.key)) ++ (st.history.map (·.2.2.key))).eraseDups.all (fun k =>
+            spoiled.contains k || (List.range (n + 1)).any (fun j =>
+              cache.find? (·.key == k) == (viewOf st.filter (stateAt st.history j)).find? (·.key == k)))
+        let candidates := if candidates0.isEmpty && perKey then [st.applied] else candidates0
         -- (a server without list versions restarts every watch "from now": only a list makes the cache current)
         let mustBeCurrent := ((live > 0 && !st.emptyRV) || listedNow) && !st.inBurst
         -- with watches restarting "from now" changes are lost between sessions: between lists the cache is only
         -- per key a past state; such scenarios are judged at the completed lists (C03) and at readiness (C08)
         if st.emptyRV && !mustBeCurrent then ({ st1 with wasReady := true }, "ok") else
+        -- C03/C05: no object ever goes back to an older version
+        let regressed := cache.find? (fun o => match (st.lastCache.getD []).find? (·.key == o.key) with
+          | some b => (oVer o).getD 0 < (oVer b).getD 0
+          | none => false)
+        if regressed.isSome then
+          fail s!"reject C03/C05/C01 the cache went back to an older version: {showObjs ((regressed.map (fun o => [o])).getD [])} after {showObjs (st.lastCache.getD [])}"
+        else
         match candidates.head? with
         | none =>
           fail s!"reject {if st.wasReady then "C03/C04" else "C03/C04/C08"} the cache {showObjs cache} is not the accepted server state at any point from event {st.applied} on (now: {showObjs (viewOf st.filter (stateAt st.history n))})"
